@@ -1,6 +1,7 @@
 import Tally.Drv.Common
 import Tally.Model.Scope
 import Tally.Spec.C04
+import Tally.Spec.C10
 /-!
 Driver for the sequential scope suites (C04, C05, C10, C11 and the sequential part of C07/C08).
 See the module doc of `Tally.Model.Scope`; line formats are documented in harness/suite_scope.go.
@@ -129,6 +130,21 @@ def handle (d : DState) (toks : List String) : DState × String :=
       let rootS := st.scopes.headD { pfx := [], tags := [], closed := false, isRoot := true, metrics := [] }
       ({ st := some st, derivs := [(0, (rootS.pfx, rootS.tags, true))], closedIds := [], metricIds := [], rootSep := st.sep }, "ok")
     | _, _, _, _, _, _ => (d, "bad-op parse")
+  | ["exec", errIn, elapsed], [fCalls, errOut, lats, succ, er] =>
+    let pe (x : String) : Option (Option Nat) := if x == "nil" then some none else x.toNat?.map some
+    match pe errIn, parseInt elapsed, fCalls.toNat?, pe errOut, intList lats, parseInt succ, parseInt er with
+    | some ei, some el, some fc, some eo, some lats, some sd, some ed =>
+      match Spec.C10.execHolds fc ei eo lats el sd ed with
+      | some c => (d, s!"violated {c}")
+      | none => (d, "ok")
+    | _, _, _, _, _, _, _ => (d, "bad-op parse")
+  | ["stopwatch", a, b], [rec] =>
+    match parseInt a, parseInt b, intList rec with
+    | some a, some b, some rec =>
+      match Spec.C10.stopwatchHolds a b rec with
+      | some c => (d, s!"violated {c}")
+      | none => (d, "ok")
+    | _, _, _ => (d, "bad-op parse")
   | ["key", pfx, maps], [okey] =>
     match ofHex pfx, (if maps == "-" then some [] else (maps.splitOn "/").mapM parseMap), ofHex okey with
     | some pfx, some maps, some okey =>
